@@ -8,13 +8,21 @@ from nqlib import run_standard, VERIF, kv
 
 PROP = os.path.basename(sys.argv[0])[:3].upper()
 
-RULE = ("the real qmail-send and qmail-clean mains (ASan+UBSan build of the working tree) run under qsim with scripted spawners: %s seeded histories of "
+RULE = ("the real qmail-send and qmail-clean mains (ASan+UBSan build of the working tree) run under qsim with scripted spawners: corpus/%(p)s.txt first, then %(n)s seeded histories of "
         "1-3 messages x 1-3 local/remote recipients x outcome scripts over {K,Z,D,mangled,out-of-range,unused-slot,blank-line text,oversized} x report orders "
         "(FIFO/LIFO/random) x concurrency 0..3 x spawner limit 0..3 x queuelifetime {0,1,150,2000,default} x TERM/ALRM/HUP at select points x failing bounce "
         "injections; one quarter with 1-2 world crashes (process crash, or machine crash with un-fsynced data lost/empty/garbage/half) followed by restart, one quarter "
-        "with a single failing system call. Every trace is abstracted to Daemon.Ev events and replayed through the monitor Daemon.accept (first rejected event = "
-        "disagreement); the oracles judge the concrete run: every accepted recipient is delivered (K read by the daemon), named in a queued bounce, still queued, or "
-        "documented-exempt (C03); no delivery starts for a record whose D byte was written, no slot reuse, in-flight count within min(concurrency, spawner limit) (C04). "
+        "with a single failing system call; plus %(n)s/16 'bound' histories (spawner limit byte 0..255 and configured concurrency 0..555 on both channels, up to 280 generated "
+        "recipients so that min(configured, announced) is exceeded by the ready recipients, reports withheld while the daemon still issues commands), %(n)s/16 'multi-pass' "
+        "histories (3-9 recipients of a message on one channel, mixed K/Z/D/mangled outcomes over several passes, ALRM/HUP, reports withheld), %(n)s/40 fault sweeps "
+        "(2-3 messages arriving one after the other so that job slots, delivery slots and message numbers are reused: the fault-free base run, then one run per system call of "
+        "qmail-send on a file below info/ local/ remote/ bounce/ todo/ - open, read, write, fsync, fstat, stat, unlink, utimes - with exactly that call failing; thorough: "
+        "every fourth base sweeps every system call) and %(n)s/50 clean-stop sweeps (1-2 messages with more recipients than delivery slots, queuelifetime {0,1,150,default}: "
+        "base run, then one run per select point at/after which a command, report or arrival happened (and every 16th idle one) with TERM delivered there, the daemon exiting 0 "
+        "once the in-flight attempts have reported, and a restart on the same queue). Every trace is abstracted to Daemon.Ev events and replayed through the monitor "
+        "Daemon.accept2 (= Daemon.accept plus the list of completion marks that are due, kept across clean restarts; first rejected event = disagreement); the oracles judge the concrete run: every accepted recipient is delivered (K read by the daemon), named in a queued "
+        "bounce, still queued, or documented-exempt (C03); no delivery starts for a record whose D byte was written, nor - across clean stops and restarts, absent a crash or a "
+        "failing call - for a record whose K/D report the daemon has read; no slot reuse; in-flight count within min(concurrency, spawner limit) (C04). "
         "non-trivial = distinct scenario")
 
 
@@ -35,7 +43,7 @@ def mutate(dis, seed):
             continue
         sc = d[i:j if j > 0 else None].strip()
         cases.add(sc)
-        for o in ("K", "Z", "D", "DK", "ZK", "KD", "DZK", "B", "ZZK"):
+        for o in ("K", "Z", "D", "DK", "ZK", "KD", "DZK", "B", "ZZK", "KZZZKK", "KZZZDK", "ZZZK", "ZZZD"):
             for r in ("0", "1", "2"):
                 toks = [t for t in sc.split() if not t.startswith(("out=", "ord="))]
                 cases.add(" ".join(toks + ["out=" + o, "ord=" + r]))
@@ -43,8 +51,8 @@ def mutate(dis, seed):
 
 
 run_standard(PROP, "Nq.Props." + PROP, "drv_c03", "harness/qsend.c", None, [],
-             "1600", "24000", {"quick": RULE % 1600, "thorough": RULE % 24000},
-             "Daemon.accept (Nq/Daemon.lean) vs the system-call traces of qmail-send.c/qmail-clean.c",
+             "1600", "24000", {"quick": RULE % {"p": PROP, "n": 1600}, "thorough": RULE % {"p": PROP, "n": 24000}},
+             "Daemon.accept2 (Nq/Daemon.lean + Nq/DaemonOwed.lean) vs the system-call traces of qmail-send.c/qmail-clean.c",
              builder=builder, mutate=mutate, oracle_filter="prop=" + PROP,
              assumptions=["OS semantics of DESIGN.md 1.4 as implemented by harness/sim.c", "spawners are scripted by the harness (arbitrary bytes allowed on the report pipes)",
                           "bounce injection is one atomic event (its atomicity is C01)", "rewrite() is the identity on the harness's recipients (C10 models it)"])
